@@ -1,12 +1,13 @@
 import json,sys
 pid,wt=sys.argv[1],sys.argv[2]
+hint=sys.argv[3] if len(sys.argv)>3 else ''
 for l in open('/verif/properties.jsonl'):
     d=json.loads(l)
     if d['id']==pid: break
 print(f"""You are helping to evaluate verification tooling by seeding a realistic regression into a Go code base.
 
 Your workspace is a scratch git worktree of the liftbridge repository (a Kafka-style replicated message log on NATS, written in Go) at {wt}. Work ONLY inside {wt}. Do not read or write /verif, /repo or any other directory outside {wt} (the Go module cache is fine). There is no network: run every go command as
-  cd {wt} && GOFLAGS=-mod=mod GOPROXY=off GOSUMDB=off go ...
+  cd {wt} && GOFLAGS=-mod=mod GOPROXY=off go ...
 
 The property that the code is supposed to satisfy:
 
@@ -19,7 +20,7 @@ Task: make ONE small, realistic change to non-test source files (the kind of sli
   2. the repository still compiles (go build ./...),
   3. the EXISTING tests of every package you touched still pass (run them: e.g. go test -count=1 -timeout 25m ./server/commitlog ; ./server takes about 4 minutes, run it once at the end if you touched it),
   4. the breakage needs something specific to manifest (a particular value, layout, order of operations, interleaving or crash point) - it must not fail on every ordinary run.
-Prefer a change in the core logic the property depends on, not in logging or error texts. Do not change or delete existing tests. Read the code first; pick a place where the existing tests are blind.
+Prefer a change in the core logic the property depends on, not in logging or error texts.{(' Place your change in or around: '+hint+' (earlier reviewers already covered other places; if nothing there can break the property, pick the nearest place that can).') if hint else ''} Do not change or delete existing tests. Read the code first; pick a place where the existing tests are blind.
 
 Deliver, inside {wt}/SEED/ :
   - patch.diff : `git diff` of your change to the non-test sources only (must apply with `git apply` to a clean checkout of the same commit);
